@@ -117,6 +117,26 @@ func (f *Frame) stdlibCall(callee *ssa.Function, args []Val, rt types.Type, pos,
 	}
 	T := func(i int) string { return f.asS(args[i], ptypes[i]).T }
 	switch name {
+	case "sort.Slice":
+		// permutes the elements of the slice in place (the order is left unspecified), allocates the swapper and the closure
+		bs, ok := s.boxedSlices[T(0)]
+		if !ok {
+			f.abort("sort.Slice on a value that is not a freshly boxed slice")
+		}
+		key := "e:" + canonKey(bs.elem)
+		es := sortOfType(bs.elem)
+		as := arrSort("Int", arrSort("Int", es))
+		ref := sliceField("s.ref", bs.term)
+		off := sliceField("s.off", bs.term)
+		ln := sliceField("s.len", bs.term)
+		f.frameObl(ref, key, "", "sort.Slice permutes the slice", pos)
+		old := f.heapGet(key, as)
+		inner := s.freshConst("sorted", arrSort("Int", es))
+		s.fact(fmt.Sprintf("(forall ((j Int)) (! (=> (or (< j %s) (>= j (+ %s %s))) (= (select %s j) (select (select %s %s) j))) :pattern ((select %s j))))", off, off, ln, inner, old, ref, inner))
+		f.heapSet(key, as, app("store", old, ref, inner))
+		f.chargeBytes(ite(app(">", ln, "1"), "64", "64"))
+		s.assume("sort.Slice permutes the slice in place and calls less only on its elements (order of the result not modelled here)")
+		return nil
 	case "fmt.Sprintf":
 		// constant formats with one %d argument: "i%d", "u%d", "f%d" ...
 		if lit, ok := s.litOf(T(0)); ok {
